@@ -6,6 +6,7 @@
    Assumptions: P1 a strict prefix of a pickle never unpickles (a torn file is unreadable),
    P2 rename is atomic; the process dies, the kernel survives (no power loss). *)
 From XV Require Import Prelude CrashFS CrashProofs Stages Names GenCrash GenStages GenNames BridgeCrash.
+From XV Require GenHarvest BridgeHarvest.
 From Coq Require Import Permutation.
 Local Open Scope nat_scope.
 
@@ -282,6 +283,11 @@ Proof.
   split; [exact (proj1 (proj2 (proj2 bridge_save_names)))|].
   split; [exact (proj1 bridge_sync_then_delete) | exact (proj1 (proj2 bridge_sync_then_delete))].
 Qed.
+
+(* [resow_samples_steps] is what sow_samples does: its statements (draw the samples, unlink the results of the
+   earlier sow, THEN sow the cases) are compared with their transcription on every run (GenHarvest) *)
+Theorem C10_resow_order_tie : GenHarvest.gen_sampler_draw_is_transcribed = true.
+Proof. exact BridgeHarvest.bridge_sampler_draw. Qed.
 
 Print Assumptions C10_resow_samples_prefix.
 Print Assumptions C10_no_silent_corruption.
